@@ -73,7 +73,8 @@ def parse_summary(content):
 
 
 def categorize_filenames(mapping):
-    filenames = list(mapping.values())
+    # the keys are numbered (`...ProductFileName01`, ...): don't depend on the line order
+    filenames = [mapping[key] for key in sorted(mapping)]
     volume_directory, leader, *imagery, trailer = filenames
     return {
         "volume_directory": volume_directory,
